@@ -357,6 +357,8 @@ pub struct Recovery {
     pub post: Option<Vec<Result<Option<Vec<u8>>, String>>>,
     pub error: Option<String>,
     pub trace_violations: Vec<(String, String)>,
+    /// per bulk key after the first recovery: '0' absent, '1' / '2' generation, '9' anything else
+    pub bulk: String,
 }
 
 fn recover_in_child(dir: &Path, cfg: Cfg, max_id_ever: Option<u64>, rounds: usize) -> Result<Recovery, String> {
@@ -384,6 +386,7 @@ fn recover_in_child_once(dir: &Path, cfg: Cfg, max_id_ever: Option<u64>, rounds:
             iohook::rec_start(&dir2.to_string_lossy());
             let mut reads = vec![];
             let mut error: Option<String> = None;
+            let mut bulk_codes = String::new();
             for round in 0..rounds {
                 iohook::rec_mark(format!("incarnation:{}", round + 1));
                 let c = cfg.build(&dir2);
@@ -391,6 +394,24 @@ fn recover_in_child_once(dir: &Path, cfg: Cfg, max_id_ever: Option<u64>, rounds:
                     let kv = c.open().map_err(|e| format!("open: {}", e))?;
                     let h = kv.get_handle();
                     let mut panicked = false;
+                    if round == 0 {
+                        let nb = BULK_N.load(std::sync::atomic::Ordering::SeqCst);
+                        let mut codes = String::with_capacity(nb);
+                        for i in 0..nb {
+                            if h.verif_pool().0 == 0 {
+                                codes.push('9');
+                                continue;
+                            }
+                            let r = std::panic::catch_unwind(std::panic::AssertUnwindSafe(|| h.get(b(e1::bulk_key(i)))));
+                            codes.push(match r {
+                                Ok(Ok(None)) => '0',
+                                Ok(Ok(Some(v))) if v[..] == e1::bulk_val(1, i)[..] => '1',
+                                Ok(Ok(Some(v))) if v[..] == e1::bulk_val(2, i)[..] => '2',
+                                _ => '9',
+                            });
+                        }
+                        bulk_codes = codes;
+                    }
                     Ok(KEYS
                         .iter()
                         .map(|&k| {
@@ -476,6 +497,7 @@ fn recover_in_child_once(dir: &Path, cfg: Cfg, max_id_ever: Option<u64>, rounds:
                 "error": error,
                 "tv": tv.iter().map(|(c, m, _)| json!([c, m])).collect::<Vec<_>>(),
                 "post": post.as_ref().map(|rd| rd.iter().map(enc).collect::<Vec<_>>()),
+                "bulk": bulk_codes,
             }))
             .unwrap()
         },
@@ -498,6 +520,7 @@ fn recover_in_child_once(dir: &Path, cfg: Cfg, max_id_ever: Option<u64>, rounds:
                 error: v["error"].as_str().map(|s| s.to_string()),
                 post: v["post"].as_array().map(|a| a.iter().map(dec).collect()),
                 trace_violations: v["tv"].as_array().map(|a| a.iter().map(|x| (x[0].as_str().unwrap().to_string(), x[1].as_str().unwrap().to_string())).collect()).unwrap_or_default(),
+                bulk: v["bulk"].as_str().unwrap_or("").to_string(),
             })
         }
         ChildOut::Died(how) => Err(format!("process died during recovery: {}", how)),
@@ -516,8 +539,61 @@ fn apply(m: &mut Kv, op: Op) {
         Op::Del(k) => {
             m.remove(&key_bytes(k));
         }
+        Op::Fill(n, g) => {
+            for i in 0..n as usize {
+                m.insert(e1::bulk_key(i), e1::bulk_val(g, i));
+            }
+        }
+        Op::Drain(n, st) => {
+            for i in (0..n as usize).step_by(st.max(1) as usize) {
+                m.remove(&e1::bulk_key(i));
+            }
+        }
         _ => {}
     }
+}
+
+/// One recovery round and no "life goes on" phase (the many crash points of a bulk workload).
+static RECOVER_LIGHT: std::sync::atomic::AtomicBool = std::sync::atomic::AtomicBool::new(false);
+/// shard * 1000 + number of shards: which crash points of the current workload this worker takes.
+static BULK_SHARD: std::sync::atomic::AtomicUsize = std::sync::atomic::AtomicUsize::new(1);
+/// Number of bulk keys (f00000 ..) the recoveries of the current workload read back as well.
+static BULK_N: std::sync::atomic::AtomicUsize = std::sync::atomic::AtomicUsize::new(0);
+
+/// Judge the bulk keys read after a recovery: '0' absent, '1' / '2' the value of that generation.
+fn judge_bulk(codes: &str, acked: &Kv, inflight: &[Op]) -> Option<(String, String)> {
+    for (i, c) in codes.bytes().enumerate() {
+        let k = e1::bulk_key(i);
+        let got: Option<Vec<u8>> = match c {
+            b'0' => None,
+            b'1' => Some(e1::bulk_val(1, i)),
+            b'2' => Some(e1::bulk_val(2, i)),
+            _ => return Some(("read-wrong-value".into(), format!("bulk key {} reads neither as absent nor as one of its two values (code {})", hex(&k), c as char))),
+        };
+        let want = acked.get(&k).cloned();
+        let mut alts = vec![want.clone()];
+        for op in inflight {
+            match *op {
+                Op::Fill(n, g) if i < n as usize => alts.push(Some(e1::bulk_val(g, i))),
+                Op::Drain(n, st) if i < n as usize && i % (st.max(1) as usize) == 0 => alts.push(None),
+                _ => {}
+            }
+        }
+        if !alts.contains(&got) {
+            let class = match (&got, &want) {
+                (Some(_), None) => "read-resurrected",
+                (None, Some(_)) => "acknowledged-write-lost",
+                _ => "read-wrong-value",
+            };
+            let bad = codes.bytes().enumerate().filter(|(j, c)| {
+                let w = acked.get(&e1::bulk_key(*j));
+                let g = match c { b'0' => None, b'1' => Some(e1::bulk_val(1, *j)), b'2' => Some(e1::bulk_val(2, *j)), _ => Some(vec![]) };
+                w.cloned() != g
+            }).count();
+            return Some((class.into(), format!("get({}) = {:?}, acceptable: {:?} ({} of {} bulk keys differ from the acknowledged state)", hex(&k), got.as_ref().map(|v| hex(v)), alts.iter().map(|a| a.as_ref().map(|v| hex(v))).collect::<Vec<_>>(), bad, codes.len())));
+        }
+    }
+    None
 }
 fn op_key(op: Op) -> Option<Vec<u8>> {
     match op {
@@ -744,6 +820,7 @@ fn validate_materializer(cx: &mut Ctx, rec: &Recorded, cfg: &Cfg, word: &[Op]) -
 }
 
 fn run_crash(cx: &mut Ctx, cfg: Cfg, word: &[Op], power: bool, byte_granular: bool) {
+    BULK_N.store(word.iter().map(|o| if let Op::Fill(n, _) | Op::Drain(n, _) = o { *n as usize } else { 0 }).max().unwrap_or(0), std::sync::atomic::Ordering::SeqCst);
     let rec = record(cfg, word, &cx.live, None);
     cx.sh.transitions += word.len() as u64;
     if let Some(m) = &rec.open_failed {
@@ -758,7 +835,12 @@ fn run_crash(cx: &mut Ctx, cfg: Cfg, word: &[Op], power: bool, byte_granular: bo
         return;
     }
     let mode = if power { "power" } else { "crash" };
-    for upto in crash_positions(&rec.log, word) {
+    let (my_shard, n_shards) = { let x = BULK_SHARD.load(std::sync::atomic::Ordering::SeqCst); (x / 1000, (x % 1000).max(1)) };
+    let rounds = if RECOVER_LIGHT.load(std::sync::atomic::Ordering::SeqCst) { 1 } else { 2 };
+    for (pi, upto) in crash_positions(&rec.log, word).into_iter().enumerate() {
+        if pi % n_shards != my_shard {
+            continue;
+        }
         let pre = &rec.log[..upto];
         let (acked, inflight) = model_at(&rec.log, upto, word);
         let infl: Vec<Op> = inflight.into_iter().collect();
@@ -884,7 +966,7 @@ fn run_crash(cx: &mut Ctx, cfg: Cfg, word: &[Op], power: bool, byte_granular: bo
                 cx.sh.nontrivial.insert(fph);
             }
             let at = json!({"upto": upto, "after_call": pre.iter().rev().find(|c| c.is_mutating()).map(|c| c.short()), "cut": cut});
-            let r = recover_in_child(&cx.rdir, cfg, max_id, 2);
+            let r = recover_in_child(&cx.rdir, cfg, max_id, rounds);
             let verdict: Option<(String, String)> = match &r {
                 Err(e) => Some((if e.contains("hang") { "recovery-hangs".into() } else { "recovery-aborts-the-process".into() }, e.clone())),
                 Ok(rv) => {
@@ -897,6 +979,9 @@ fn run_crash(cx: &mut Ctx, cfg: Cfg, word: &[Op], power: bool, byte_granular: bo
                                 v = Some((c, format!("{} (recovery round {})", m, round + 1)));
                                 break;
                             }
+                        }
+                        if v.is_none() && !rv.bulk.is_empty() {
+                            v = judge_bulk(&rv.bulk, &acked, &infl);
                         }
                         if v.is_none() {
                             if let Some(post) = &rv.post {
@@ -1420,6 +1505,26 @@ pub fn worker(job: &Job) -> Shard {
                 cx.sh.count("workloads", 1);
             }
         }
+    }
+    if mode == "crash" && !sh.capped {
+        // hundreds of keys in one merge (one configuration: everything in one output file): the hint
+        // writer flushes its 8 KiB buffer in the middle of records, the merge issues hundreds of
+        // calls - a crash point at every one of them; the recoveries read every key back, once
+        let n = job.tier.pick(300u32, 700u32);
+        let bulk_words = vec![vec![Op::Fill(n, 1), Op::Merge], vec![Op::Fill(n, 1), Op::Drain(n, 2), Op::Merge], vec![Op::Fill(n, 1), Op::Merge, Op::Fill(n / 2, 2), Op::Merge], vec![Op::Fill(40, 1)]];
+        let cfg = Cfg::new(1_000_000, Thr::All, 1);
+        RECOVER_LIGHT.store(true, std::sync::atomic::Ordering::SeqCst);
+        let mut cx = Ctx { sh: &mut sh, prop: &job.prop, live: scratch.join("live"), rdir: scratch.join("rec") };
+        for (k, w) in bulk_words.iter().enumerate() {
+            // the crash points of one word are spread over the workers
+            BULK_SHARD.store(job.shard * 1000 + job.nshards, std::sync::atomic::Ordering::SeqCst);
+            let _ = k;
+            job.progress(&case_json("crash", &cfg, w, json!(null)));
+            run_crash(&mut cx, cfg, w, false, false);
+            cx.sh.count("bulk-crash-workloads", 1);
+        }
+        BULK_SHARD.store(1, std::sync::atomic::Ordering::SeqCst);
+        RECOVER_LIGHT.store(false, std::sync::atomic::Ordering::SeqCst);
     }
     if (mode == "crash" || mode == "c14") && !sh.capped {
         let pairs = double_crash_pairs(job.tier);
